@@ -235,8 +235,32 @@ Selectors == SelOfLen(2) \cup SelOfLen(3) \cup SelOfLen(4)
 SelDoc(sel) == <<"<svg width=\"10\" height=\"10\">", "<style>">> \o sel \o
                <<"{fill:red}", "</style>", "<rect x=\"1\" y=\"1\" width=\"2\" height=\"2\"/>", "<g>",
                  "<rect width=\"1\" height=\"1\"/>", "<g>", "<circle r=\"1\"/>", "</g>", "</g>", "</svg>">>
-\* (the document index is kept in acc so that the module needs no further variable; index Len(Docs)+1 = the selector family)
-DInit == /\ acc \in {<<i>> : i \in 1..(Len(Docs) + 1)}
+\* colours (paint values): the lexical space of svgParser.parseColor / Hex.  "#" followed by EVERY string of 0..3 symbols over
+\* ColSym (hex digits of both cases, letters that are no hex digits, blank, semicolon, a two-byte rune), the well-formed
+\* strings of 4..9 hex digits and each of them with one position replaced by each non-hex symbol (so that every length the
+\* decoder distinguishes - 3, 4, 6, 8 and their neighbours - occurs with a bad symbol at every position), and the
+\* functional notations with missing, surplus, empty and out-of-range components.  Each colour is placed in every context
+\* that reaches the colour parser: fill / stroke attributes, style="..." declarations, a <style> rule, stop-color.
+ColSym == {"0", "a", "F", "g", " ", ";", "é"}
+BadColSym == {"g", "z", " ", ";", "é", "-", "#", "%"}
+HexBase == <<"1", "a", "F", "0", "c", "9", "E", "7", "b">>
+HexShort == UNION {[1..n -> ColSym] : n \in 0..3}
+HexLong == UNION {{SubSeq(HexBase, 1, n)} \cup {[SubSeq(HexBase, 1, n) EXCEPT ![i] = b] : i \in 1..n, b \in BadColSym} : n \in 4..9}
+FuncCols == {<<"rgb(1,2,3)">>, <<"rgb(1,2)">>, <<"rgb(1,2,3,4)">>, <<"rgb(,,)">>, <<"rgb(300,0,-1)">>, <<"rgb(50%,x,1)">>, <<"rgb(%,1,1)">>, <<"rgb(">>, <<"rgb()">>,
+             <<"rgba(1,2,3,.5)">>, <<"rgba(1,2,3)">>, <<"rgba(1,2,3,50%)">>, <<"rgba(1,2,3,%)">>, <<"rgba(,,,)">>, <<"rgba()">>, <<"RGB(1,2,3)">>,
+             <<"none">>, <<"currentColor">>, <<"">>, <<"Red">>, <<"nosuchcolour">>}
+Colours == {<<"#">> \o h : h \in HexShort \cup HexLong} \cup FuncCols
+ColCtx == {
+  [pre |-> <<"<svg width=\"10\" height=\"10\">", "<rect width=\"1\" height=\"1\" fill=\"">>, post |-> <<"\"/>", "</svg>">>],
+  [pre |-> <<"<svg width=\"10\" height=\"10\">", "<path d=\"M0 0L1 1\" stroke=\"">>, post |-> <<"\"/>", "</svg>">>],
+  [pre |-> <<"<svg width=\"10\" height=\"10\">", "<circle r=\"1\" style=\"stroke:">>, post |-> <<";fill:none\"/>", "</svg>">>],
+  [pre |-> <<"<svg width=\"10\" height=\"10\">", "<style>", "rect{fill:">>, post |-> <<"}", "</style>", "<rect width=\"1\" height=\"1\"/>", "</svg>">>],
+  [pre |-> <<"<svg width=\"10\" height=\"10\">", "<defs>", "<linearGradient id=\"g\">", "<stop offset=\"0\" stop-color=\"">>,
+   post |-> <<"\"/>", "</linearGradient>", "</defs>", "<path d=\"M0 0H10V10z\" fill=\"url(#g)\"/>", "</svg>">>] }
+ColDocs == {x.pre \o col \o x.post : x \in ColCtx, col \in Colours}
+\* (the document index is kept in acc so that the module needs no further variable; index Len(Docs)+1 = the selector family,
+\* Len(Docs)+2 = the colour family)
+DInit == /\ acc \in {<<i>> : i \in 1..(Len(Docs) + 2)}
          /\ str = <<>> /\ st = InitSt /\ hist = <<>> /\ ph = "cmd" /\ cmd = "" /\ lastk = "none"
          /\ p0 = <<0, 0>> /\ sp = <<0, 0>> /\ lc = <<0, 0>> /\ lq = <<0, 0>> /\ prev = ""
 DNext == UNCHANGED tvars2
@@ -245,15 +269,23 @@ DSpec == DInit /\ [][DNext]_tvars2
 \* no access to the characters of a string), so that every byte position of the four documents is a truncation point
 DEmit == PrintT("@@" \o ToJson([kind |-> "doc", doc |-> acc[1],
                                  orig |-> IF acc[1] <= Len(Docs) THEN Docs[acc[1]] ELSE <<>>,
-                                 muts |-> IF acc[1] <= Len(Docs) THEN DocMut(Docs[acc[1]]) ELSE {SelDoc(sel) : sel \in Selectors}]))
+                                 muts |-> IF acc[1] <= Len(Docs) THEN DocMut(Docs[acc[1]])
+                                          ELSE IF acc[1] = Len(Docs) + 1 THEN {SelDoc(sel) : sel \in Selectors} ELSE ColDocs]))
 
 \* ---- printing: rules of comparison (header for the driver) -------------------------------------------
-Precision == 8     \* canvas.Precision: significant digits (ToSVG) / decimals (ToPDF, ToPS)
-TextHeader == [hdr |-> TRUE, precision |-> Precision,
+Precision == 8     \* canvas.Precision (default): significant digits (ToSVG) / decimals (ToPDF, ToPS)
+\* "to the CONFIGURED output precision": canvas.Precision is a run-time setting.  The printing checks are repeated with the
+\* setting changed (after package initialisation) to each of AltPrecisions - below and above the default; every tolerance
+\* is the same function of the configured value, so a printer that keeps using another precision than the configured one
+\* (too few digits) leaves the tolerance of the larger settings.
+AltPrecisions == {5, 10, 12}
+TextHeaderAt(P) == [hdr |-> TRUE, precision |-> P,
                \* tolerances as negative powers of ten relative to the largest coordinate magnitude (at least 1):
-               tolExp |-> Precision - 1,            \* 10^(1-Precision): printed coordinates
-               tolArcMinExp |-> (Precision - 1) \div 2,   \* ArcRadiiMinimal: centre is ill-conditioned, sqrt of the above
+               tolExp |-> P - 1,            \* 10^(1-Precision): printed coordinates
+               tolArcMinExp |-> (P - 1) \div 2,   \* ArcRadiiMinimal: centre is ill-conditioned, sqrt of the above
                tolArcCubicMilli |-> 2,              \* ToPDF replaces arcs by cubic Beziers: 2/1000 of the larger radius
                stringEqualsExp |-> 9]               \* "equals p": 1e-9 relative (Equals uses Epsilon = 1e-10 absolute)
-THdrInv == (str = <<>>) => PrintT("@@" \o ToJson(TextHeader))
+TextHeader == TextHeaderAt(Precision)
+THdrInv == (str = <<>>) => /\ PrintT("@@" \o ToJson(TextHeader))
+                           /\ PrintT("@@" \o ToJson([althdrs |-> {TextHeaderAt(P) : P \in AltPrecisions}]))
 =============================================================================
